@@ -31,7 +31,7 @@ import z3
 
 from pyvc import core as C
 from pyvc import tensor as T
-from pyvc.core import INT, KEY, REAL, ROW, Builtin, Opaque, Sym, band, implies
+from pyvc.core import INT, KEY, REAL, ROW, Builtin, Sym, band, implies
 from pyvc.lib.ext_ensemble import member
 from pyvc.lib.nnx_model import apply_fn
 from pyvc.runner import Task
@@ -398,7 +398,8 @@ def h_bootstrap(E):
 # evaluate_plans
 # ---------------------------------------------------------------------------
 def h_evaluate_plans(E):
-    S, P, H = E.dim("n_samples"), E.dim("n_particles"), E.dim("plan_horizon", 1)
+    H = E.dim("plan_horizon", 1)  # declared first: the concrete confirmation sizes are then pairwise different (H=1, S=3, P=4)
+    S, P = E.dim("n_samples"), E.dim("n_particles")
     A, D = E.dim("n_act"), E.dim("n_obs")
     actions = rows_tensor(E, "actions", (S, H), A)
     traj = rows_tensor(E, "trajectories", (S, P, T.norm_dim(C.binop("+", H, 1))), D)
@@ -737,11 +738,11 @@ def mk_train_ensemble(n_epochs):
         D = E.dim("n_outputs")
         en = Ens(E, D)
         opt = mk_optimizer(E, "optimizer", en.obj)
+        BS = E.dim("batch_size", 1)  # declared before the data sizes: concrete confirmation sizes have batch_size < n_bootstrapped
         n = E.dim("n_data", 1)
         X = rows_tensor(E, "X", (n,), en.F)
         Y = T.fresh_tensor("Y", (n, D), REAL)
         m = E.dim("n_bootstrapped", 1)
-        BS = E.dim("batch_size", 1)
         E.st.ghost["c17_ctx"] = dict(en=en, opt=opt, X=X, Y=Y, m=m, BS=BS, boot=None)
         ts = E.real("train_size")
         key = E.val("key", KEY)
